@@ -1397,6 +1397,7 @@ private:
     if (!log.is_open())
       return; // No log file yet
 
+    std::streamoff validEnd = 0; // end offset of the last completely read entry
     while (log.peek() != EOF)
     {
       uint32_t totalLen = 0;
@@ -1411,6 +1412,7 @@ private:
       {
         break; // Incomplete entry
       }
+      validEnd = log.tellg();
 
       if (!validateLogEntry(buffer, totalLen))
       {
@@ -1546,6 +1548,21 @@ private:
       {
         _kv.erase(key);
         _expiry.erase(key);
+      }
+    }
+    log.close();
+
+    // Cut off a torn tail (crash in the middle of an append). The log has no
+    // resync marker, so entries appended behind it would be unreadable on the
+    // next load.
+    std::error_code ec;
+    const auto logSize = std::filesystem::file_size(_logPath, ec);
+    if (!ec && static_cast<std::uintmax_t>(validEnd) < logSize)
+    {
+      std::filesystem::resize_file(_logPath, static_cast<std::uintmax_t>(validEnd), ec);
+      if (ec)
+      {
+        throw KVStoreException("Failed to truncate torn log tail: " + ec.message());
       }
     }
   }
